@@ -55,6 +55,8 @@ class SoupCodec:
 
 BAD_SOUP = [
     b'\x00\x01?',                       # unknown packet type
+    b'\x00\x08?payload',               # unknown packet type with a payload
+    b'\x00\x06!\x00\x03S12',            # unknown type whose payload looks like a frame
     b'\x00\x00',                        # zero-length frame
     b'\x00\x02Hx',                      # heartbeat with payload
     b'\x00\x02JX',                      # bad reject reason
